@@ -12,34 +12,40 @@ def _fams(l):
     return '[' + '; '.join(str(T.FAM[f]) for f in l) + ']%N'
 
 
-CLOSURE_PINS = os.path.join(HERE, 'closure_pins.json')
+CLOSURE_PINS = os.path.join(HERE, 'pins_closures.json')
 
 
 def closure_shapes(src):
     """The action CALLABLES: for every translated directive method the shapes of its nested functions (`register`,
-    `discrim_func`, ...), names blanked so that renaming one is harmless.  The translator only follows the
-    statement-level code of the directives; what the callables do is described by the declared read/write table and
-    watched by the registry monitor -- but the monitor only sees the registry, so their text is pinned as well."""
+    `discrim_func`, ...) in the usual pin form {file: {'Class.method.inner': hash}}, but with the function's own name
+    blanked inside the hash, and compared per enclosing method as a MULTISET of hashes -- so renaming a callable is
+    harmless.  The translator only follows the statement-level code of the directives; what the callables do is
+    described by the declared read/write table and watched by the registry monitor -- but the monitor only sees the
+    registry, so their text is pinned as well."""
     import ast
     import hashlib
     from . import translate
     out = {}
     for fn, cls, meths in translate.EMIT_FUNCS:
+        rel = 'pyramid/config/' + fn
         for m in meths:
             try:
                 node = translate.find_method(src, fn, cls, m)
             except Exception:
-                out['%s:%s.%s' % (fn, cls, m)] = ['missing']
                 continue
-            hs = []
-            for d in ast.walk(node):
-                if d is not node and isinstance(d, ast.FunctionDef):
-                    c = F.strip_doc(d)
-                    for x in ast.walk(c):
-                        if isinstance(x, ast.FunctionDef) and x.name == d.name:
-                            x.name = '_'
-                    hs.append(hashlib.sha1(ast.dump(c).encode()).hexdigest()[:16])
-            out['%s:%s.%s' % (fn, cls, m)] = sorted(hs)
+
+            def walk(parent, prefix):
+                for d in ast.iter_child_nodes(parent):
+                    if isinstance(d, ast.FunctionDef):
+                        c = F.strip_doc(d)
+                        for x in ast.walk(c):
+                            if isinstance(x, ast.FunctionDef) and x.name == d.name:
+                                x.name = '_'
+                        out.setdefault(rel, {})[prefix + d.name] = hashlib.sha1(ast.dump(c).encode()).hexdigest()[:16]
+                        walk(d, prefix + d.name + '.')
+                    elif not isinstance(d, ast.ClassDef):
+                        walk(d, prefix)
+            walk(node, '%s.%s.' % (cls, m))
     return out
 
 
@@ -50,12 +56,20 @@ def check_closures(src, problems):
         with open(CLOSURE_PINS) as f:
             want = json.load(f)
     except OSError:
-        problems.append('closure pins file missing')
+        problems.append('pins_closures.json missing')
         return
-    for k in sorted(set(got) | set(want)):
-        if got.get(k) != want.get(k):
-            problems.append('callables of %s changed (nested function shapes %s -> %s): the declared read/write table and the '
-                            'store model describe the previous text' % (k, want.get(k), got.get(k)))
+
+    def per_method(d):
+        out = {}
+        for rel, qs in d.items():
+            for q, h in qs.items():
+                out.setdefault((rel, '.'.join(q.split('.')[:2])), []).append(h)
+        return {k: sorted(v) for k, v in out.items()}
+    g, w = per_method(got), per_method(want)
+    for k in sorted(set(g) | set(w)):
+        if g.get(k) != w.get(k):
+            problems.append('callables of %s:%s changed (nested function shapes %s -> %s): the declared read/write table and '
+                            'the store model describe the previous text' % (k[0], k[1], w.get(k), g.get(k)))
 
 
 def facts(src):
